@@ -66,6 +66,16 @@ EXTRA_SNIPPETS = {
     "supraBoard": ("Board, supra, at 3.", "SupraCitation", 0),            # first word of a multi-word name
     "shortEdu": ("Educationxo, 2 U.S. at 51.", "ShortCaseCitation", 0),    # name in both D and E
     "shortSmith": ("Smithxo, 2 U.S. at 51.", "ShortCaseCitation", 0),
+    # an antecedent with inner periods, a second case spelled without them
+    "fullNLRB": ("N.L.R.B. v. Xeroxo, 6 F.2d 6 (1960)", "FullCaseCitation", 0),
+    "fullNLRBplain": ("NLRB v. Yankeexo, 6 F.2d 60 (1961)", "FullCaseCitation", 0),
+    "supraNLRB": ("N.L.R.B., supra, at 7.", "SupraCitation", 0),
+    "shortNLRB": ("N.L.R.B., 6 F.2d at 7.", "ShortCaseCitation", 0),
+    "supraNLRBplain": ("NLRB, supra, at 61.", "SupraCitation", 0),
+    # a second case that shares a party name with A, and references by that name
+    "fullA2": ("Alphaxo v. Omicronxo, 7 F.2d 70 (1940)", "FullCaseCitation", 0),
+    "refA2": ("Alphaxo v. Omicronxo, 7 F.2d 70 (1940). In Omicronxo at 71 we see", "ReferenceCitation", 0),
+    "refAlpha": ("Alphaxo v. Omicronxo, 7 F.2d 70 (1940). In Alphaxo at 72 we see", "ReferenceCitation", 0),
     "supraPunct": ("the rule ..., supra, at 4.", "SupraCitation", 0),      # antecedent of punctuation only
     "supraDash": ("as noted --, supra.", "SupraCitation", 0),
 }
@@ -117,6 +127,8 @@ FOCUS = {
 }
 FOCUS["antecedent"] = ["fullD", "fullE", "fullMc", "fullDon", "supraEdu", "supraRoe", "supraDon", "supraBoard",
                        "shortEdu", "shortSmith", "supraPunct"]
+FOCUS["periods"] = ["fullNLRB", "fullNLRBplain", "supraNLRB", "shortNLRB", "supraNLRBplain", "idValid"]
+FOCUS["reference"] = ["fullA", "fullA2", "fullB", "refA", "refA2", "refAlpha", "supraA", "shortA_named", "idNoPin"]
 FOCUS_LMAX = {3: 4, 5: 5}     # base bound -> focus bound
 
 
